@@ -81,7 +81,12 @@ def core(ctx, lib, basis, M, rmse, keys, counts, extra, Ts, label, perm):
         ctx.event('skip:quadratic-form-is-round-off')
         return
     try:
-        est = lib.Estimate(mapping, 'thermochem')
+        given = dict(mapping)
+        est = lib.Estimate(given, 'thermochem')
+        # the estimate is a value: what happens to the mapping object afterwards (re-used for the next molecule) is not its business
+        for k in list(given):
+            given[k] = given[k] * 3
+        given[basis[0]] = given.get(basis[0], 0) + 1
         est_p = lib.Estimate({k: mapping[k] for k in perm}, 'thermochem')
     except Exception as e:
         ctx.fail('estimate-raises:%s' % type(e).__name__, '[%s] Estimate(%s) raised %s: %s' % (label, mapping, type(e).__name__, e))
@@ -254,15 +259,16 @@ def synthetic_case(draw):
     n = draw(st.integers(3, 8))
     specs = [_no_range(draw(TG.group_spec(cp='yes', H='yes', S='yes', with_range='no'))) for _ in range(n)]
     rows = draw(st.integers(1, n + 2))
-    A = [[draw(st.sampled_from([0, 0, 1, -1, 0.5, 2, -0.3])) for _ in range(n)] for _ in range(rows)]
+    whole = draw(st.integers(0, 3)) == 0      # a matrix of whole numbers only (a YAML file then holds integers)
+    A = [[draw(st.sampled_from([0, 0, 1, -1, 2] if whole else [0, 0, 1, -1, 0.5, 2, -0.3])) for _ in range(n)] for _ in range(rows)]
     rm = _no_range(draw(TG.group_spec(cp='yes', H='yes', S='yes', with_range='no')))
     idx = draw(st.lists(st.integers(0, n - 1), min_size=1, max_size=n, unique=True))
     counts = [draw(st.one_of(st.integers(-3, 6), st.sampled_from([0.5, 0.217, 1.5]))) for _ in idx]
     extra = ['Outside'] if draw(st.integers(0, 5)) == 0 else []
     basis_order = list(draw(st.permutations(range(n))))
     # the stored matrix need not be symmetric: an antisymmetric part leaves x'Mx as it is but makes the two triangles differ
-    skew = [[draw(st.sampled_from([0, 0, 1, -2, 0.25])) for _ in range(n)] for _ in range(n)] if draw(st.booleans()) else None
-    return dict(kind='synthetic', specs=specs, A=A, rmse=rm, idx=idx, counts=counts, extra=extra, skew=skew,
+    skew = [[draw(st.sampled_from([0, 0, 1, -2] if whole else [0, 0, 1, -2, 0.25])) for _ in range(n)] for _ in range(n)] if draw(st.booleans()) else None
+    return dict(kind='synthetic', specs=specs, A=A, rmse=rm, idx=idx, counts=counts, extra=extra, skew=skew, whole=whole,
                 basis_order=basis_order, tf=[draw(st.floats(0, 1)) for _ in range(2)])
 
 
@@ -278,7 +284,10 @@ def check_synthetic(ctx, case):
         M = M + (B - B.T)
         ctx.event('synthetic:stored-matrix-not-symmetric')
     rmse = TG.build_group(case['rmse'])
-    uq = dict(RMSE=types.SimpleNamespace(thermochem=rmse), descriptors=list(basis), mat=M.copy(), dof=10)
+    Mstored = M.astype(int) if case.get('whole') and np.all(M == np.round(M)) else M.copy()
+    if Mstored.dtype.kind == 'i':
+        ctx.event('synthetic:stored-matrix-of-integers')
+    uq = dict(RMSE=types.SimpleNamespace(thermochem=rmse), descriptors=list(basis), mat=Mstored, dof=10)
     specs2 = specs + ([TG_dummy()] if case['extra'] else [])
     if sum(case['idx']) % 2 == 0:
         lib = TG.build_library(specs2, names=names + (['Outside'] if case['extra'] else []), uq=uq)
@@ -293,7 +302,7 @@ def check_synthetic(ctx, case):
             return dict(T_ref=sp['T_ref'], H=sp['H'], S=sp['S'], cp=[[t, c] for t, c in zip(sp['Ts'], sp['Cps'])], range=sp['range'])
         with LG.TempLib() as tl:
             groups = {nm: ab(sp) for nm, sp in zip(names + (['Outside'] if case['extra'] else []), specs2)}
-            tl.write('library.yaml', LG.render_file(groups, lambda nm: nd) + LG.render_uq(ab(case['rmse']), basis, M.tolist()))
+            tl.write('library.yaml', LG.render_file(groups, lambda nm: nd) + LG.render_uq(ab(case['rmse']), basis, Mstored.tolist()))
             with warnings.catch_warnings():
                 warnings.simplefilter('ignore')
                 lib = GroupLibrary.Load(tl.path())
